@@ -192,6 +192,38 @@ def standalone_cases(run, sc, n):
             return
 
 
+def many_dangling(run, sc):
+    """more offending references than a table print-out shows by default: the error still lists the present end point of
+    every one of them (missing targets, then missing sources)"""
+    from opcua_tools import UAGraph
+    rng = run.rng
+    for side in ("target", "source"):
+        k = rng.randint(22, 40)
+        nodes = []
+        for j in range(k):
+            ref = ('<Reference ReferenceType="i=40">ns=1;i=%d</Reference>' % (9000 + j)) if side == "target" else \
+                  ('<Reference ReferenceType="i=35" IsForward="false">ns=1;i=%d</Reference>' % (9000 + j))
+            nodes.append('<UAObject NodeId="ns=1;i=%d" BrowseName="1:p%d"><DisplayName>p%d</DisplayName><References>%s</References></UAObject>' % (100 + j, j, j, ref))
+        text = ('<?xml version="1.0" encoding="utf-8"?>\n<UANodeSet xmlns="http://opcfoundation.org/UA/2011/03/UANodeSet.xsd"><NamespaceUris><Uri>urn:many</Uri></NamespaceUris>'
+                '<Models><Model ModelUri="urn:many" Version="1" PublicationDate="2020-01-01T00:00:00Z"/></Models><Aliases/>' + "".join(nodes) + "</UANodeSet>")
+        case = {"files": {"many.xml": text}}
+        run.case({"many_dangling": side, "references": k}, tag="closure:many-" + side)
+        res = build({"many.xml": text}, sc, "many_" + side)
+        want = sorted("ns=1;i=%d" % (100 + j) for j in range(k))
+        got = []
+        if res.get("err") == "ValueError":
+            body = res["msg"].split("\n", 2)[2] if res["msg"].count("\n") >= 2 else res["msg"]
+            for line in body.split("\n")[1:]:
+                m = NID.findall(line)
+                if m:
+                    got.append(m[0])
+        if res.get("err") != "ValueError" or sorted(got) != want:
+            run.violation(case, {"what": "with %d references whose %s is undefined the error does not list the present end point of every one of them" % (k, side),
+                                 "listed": len(got), "missing_from_the_message": sorted(set(want) - set(got))[:6], "message_tail": res.get("msg", "")[-300:],
+                                 "call": "UAGraph.from_path / from_file_list"})
+            return
+
+
 LOOKUP_CALLS = [0]
 
 
@@ -295,6 +327,9 @@ def explore(run):
         if run.full():
             return
         standalone_cases(run, sc, 200 if thorough else 16)
+        if run.full():
+            return
+        many_dangling(run, sc)
         if run.full():
             return
         for _ in range(20 if thorough else 2):
